@@ -28,8 +28,8 @@ Fixpoint pbi (s : str) (count : nat) (acc : str) : list_err + (str * str) :=
       else if c =? c_rbrace then
         match count with
         | O => match r with
-               | [] => inr (rev acc, r)
-               | n :: _ => if is_list_white n then inr (rev acc, r) else inl ExtraAfterBrace
+               | [] => inr (rev_fast acc, r)
+               | n :: _ => if is_list_white n then inr (rev_fast acc, r) else inl ExtraAfterBrace
                end
         | S k => pbi r k (c :: acc)
         end
@@ -44,7 +44,7 @@ Fixpoint pqi (fuel : nat) (s : str) (acc : str) : list_err + (str * str) :=
       match s with
       | [] => inl UnmatchedQuote
       | c :: r =>
-          if c =? c_dquote then inr (rev acc, r)
+          if c =? c_dquote then inr (rev_fast acc, r)
           else if c =? c_bslash then
             let '(ch, r') := bsubst r in pqi f r' (ch :: acc)
           else pqi f r (c :: acc)
@@ -54,12 +54,12 @@ Fixpoint pqi (fuel : nat) (s : str) (acc : str) : list_err + (str * str) :=
 (* parse_bare_item *)
 Fixpoint pbare (fuel : nat) (s : str) (acc : str) : str * str :=
   match fuel with
-  | O => (rev acc, s)
+  | O => (rev_fast acc, s)
   | S f =>
       match s with
-      | [] => (rev acc, [])
+      | [] => (rev_fast acc, [])
       | c :: r =>
-          if is_list_white c then (rev acc, s)
+          if is_list_white c then (rev_fast acc, s)
           else if c =? c_bslash then
             let '(ch, r') := bsubst r in pbare f r' (ch :: acc)
           else pbare f r (c :: acc)
@@ -80,7 +80,7 @@ Fixpoint parse_list (fuel : nat) (s : str) (acc : list str) : option (list_err +
   | O => None
   | S f =>
       match skip_while is_list_white s with
-      | [] => Some (inr (rev acc))
+      | [] => Some (inr (rev_fast acc))
       | s' => match parse_item s' with
               | inl e => Some (inl e)
               | inr (item, rest) => parse_list f rest (item :: acc)
